@@ -296,5 +296,15 @@ F10Keys(l) ==
 F10Case == ProjectCase("fk-inside-forms", [def |-> "en", locs |-> <<"en", "fr">>, inh |-> << >>, vals |-> [l \in {"en", "fr"} |-> F10Keys(l)]],
                        [k \in DOMAIN F10Keys("en") |-> k], "none")
 
-Families == <<F2Case, F3Plural, F6Case, F7Case, F8Case, F9Case, F10Case>> \o F3Cases \o F4Cases \o F5Cases
+\* F11: broken references at the END of a chain whose head sorts first (a1 -> b1 -> missing key / subkey group): the project is
+\* rejected and the error names the key that holds the broken reference (b1), not the head of the chain
+F11Keys(bad) == [a1 |-> Val(<<T(<<"h","SP">>), Fk(<<"b","1">>, <<>>)>>),
+                 b1 |-> Val(<<Fk(bad, <<>>), T(<<"SP","t">>)>>),
+                 g  |-> [k |-> "group"],
+                 z1 |-> Val(<<T(<<"z">>)>>)]
+F11Case(bad) == ProjectCase("fk-broken-chain", [def |-> "en", locs |-> <<"en", "fr">>, inh |-> << >>, vals |-> [l \in {"en", "fr"} |-> F11Keys(bad)]],
+                            [k \in {"a1", "b1", "g", "z1"} |-> k], "none")
+F11Cases == << F11Case(<<"n","o","p","e">>), F11Case(<<"g">>) >>
+
+Families == <<F2Case, F3Plural, F6Case, F7Case, F8Case, F9Case, F10Case>> \o F3Cases \o F4Cases \o F5Cases \o F11Cases
 =============================================================================
